@@ -152,6 +152,10 @@ def check(ctx):
     ctx.attempt(error_undef_tables)
     ctx.attempt(lowered_before_unpack)
     ctx.attempt(canonical_case_and_none)
+    from .c15 import _escape                 # the decomposition handed out is the caller's own copy
+    ctx.attempt(_escape)
+    ctx.attempt(common.cross_component_compare, [f for f in ctx.repo.funcs.values() if f.module.name.endswith(('trs.trs', 'tract.tract'))])
+    ctx.attempt(validation_on_every_path)
     ctx.attempt(common.test_then_shrink, [f for f in ctx.repo.funcs.values() if f.module.name.endswith(('trs.trs', 'unpack.unpackers', 'config.config'))])
     ctx.attempt(common.embedded_case_consistency, modules=('trs.trs',))
     ctx.attempt(common.clause_purity, [f for f in ctx.repo.funcs.values() if f.module.name.endswith(('trs.trs',))])
@@ -551,6 +555,27 @@ def lowered_before_unpack(ctx, rule='DEFUSE'):
                     and any(isinstance(y, ast.Subscript) or (isinstance(y, ast.Call) and isinstance(y.func, ast.Attribute)
                                                                and y.func.attr in ('group', 'groupdict'))
                             for y in ast.walk(x.func.value)) for x in walk_local(fi.node))
+        if not lowered and after:
+            # lowered piecemeal after the match: then EVERY value taken from a letter-bearing group
+            # must be lowered, the direction letters included
+            raw = []
+            for a in walk_local(fi.node):
+                if isinstance(a, ast.Assign) and isinstance(a.targets[0], ast.Subscript) and isinstance(a.targets[0].slice, ast.Constant):
+                    grp = [x for x in ast.walk(a.value) if (isinstance(x, ast.Call) and isinstance(x.func, ast.Attribute)
+                                                             and x.func.attr == 'group' and x.args and isinstance(x.args[0], ast.Constant)
+                                                             and x.args[0].value in ('ns', 'ew', 'twp', 'rge'))
+                           or (isinstance(x, ast.Subscript) and isinstance(x.slice, ast.Constant) and x.slice.value in ('ns', 'ew', 'twp', 'rge')
+                               and isinstance(x.value, ast.Name) and x.value.id.endswith('mo'))]
+                    low = any(isinstance(x, ast.Call) and isinstance(x.func, ast.Attribute) and x.func.attr in ('lower', 'casefold')
+                              for x in ast.walk(a.value))
+                    if grp and not low:
+                        raw.append(a)
+            ctx.check(not raw, rule, construct,
+                      detail_bad=f"the string is matched as given (case-insensitive pattern) and `{norm(raw[0])[:60] if raw else ''}` stores a captured "
+                                 f"part without lower-casing it: '4N68W12' yields twp_ns='N' / rge_ew='W', which the sort keys and "
+                                 f"pretty_twprge compare with 'n' / 'w' - North sorts as South",
+                      key=f"{rule}|TRS.trs_to_dict|not-lowered", where=common.loc(fi, raw[0]) if raw else None)
+            continue
         ctx.tri(lowered, not lowered and not after, rule, construct,
                 detail_bad=f"`{norm(c)[:60]}` matches the string as given with a case-insensitive pattern: '154N97W14' yields "
                            f"twp_ns='N', rge_ew='W' (and an upper-case .trs), which no comparison with 'n' / 's' / 'e' / 'w' "
@@ -628,3 +653,37 @@ def canonical_case_and_none(ctx, rule='DEFUSE'):
                                      f"now sees the string 'None' - the error TRS instead of the undefined one, although TRS(None) "
                                      f"and TRS('') still mean undefined", key=f"{rule}|TRS.{fn.name}|str-none",
                           where=f"{cls.module.relpath}:{a.lineno}")
+
+
+def validation_on_every_path(ctx, rule='DEFUSE'):
+    """construct_trs validates each finished component against its pattern
+    (`re.fullmatch(TRS._TWP_RGX, twp)`), whatever it was built from.  As an
+    `elif` of the branch that builds the string from an int, the check no
+    longer sees int-built strings: 1154 gives '1154n', which is not a
+    standard Twp."""
+    ct = ctx.repo.func('TRS.construct_trs')
+    n = 0
+    for node in ast.walk(ct.node):
+        if isinstance(node, ast.If):
+            m = [c for c in ast.walk(node.test) if isinstance(c, ast.Call) and dotted(c.func) in ('re.fullmatch', 're.match')
+                 and c.args and '_RGX' in norm(c.args[0])]
+            m += [c for c in ast.walk(node.test) if isinstance(c, ast.Call) and isinstance(c.func, ast.Attribute)
+                  and c.func.attr == 'fullmatch' and ('_RGX' in norm(c.func.value) or '_PATTERN' in norm(c.func.value))]
+            if not m:
+                continue
+            n += 1
+            par = getattr(node, '_parent', None)
+            in_else = isinstance(par, ast.If) and node in par.orelse
+            if in_else:
+                # only if the skipped branch BUILDS a value (f-string / str / format); a branch that
+                # merely puts in the placeholder needs no validation
+                builds = any(isinstance(a, ast.Assign) and not (isinstance(a.value, ast.Attribute) or isinstance(a.value, ast.Constant))
+                             for b_ in par.body for a in ast.walk(b_))
+                in_else = builds
+            ctx.check(not in_else, rule, f"construct_trs: `{norm(m[0])[:40]}` checks the component on every path",
+                      detail_bad=f"the check is the `elif` of `if {norm(par.test)[:40] if in_else else ''}`: a component that was just built in that "
+                                 f"branch (from an int) is never validated - construct_trs(1154, 97, 1) returns '1154n97w01' and "
+                                 f"from_twprgesec turns the WHOLE string into the error TRS instead of only the township",
+                      key=f"{rule}|construct_trs|validation-elif|{norm(m[0])[:30]}", where=common.loc(ct, node))
+    if n == 0:
+        ctx.undecided(rule, 'construct_trs validates every component', 'validation tests not found')
